@@ -285,3 +285,16 @@ Example C04_example_stream_block :
   /\ r_read_bytes (allocate_at_end (ba_new LE) 4) 7 0 = (Ok [], 7)
   /\ enc BE 4 16909060 = [1; 2; 3; 4] /\ enc LE 4 16909060 = [4; 3; 2; 1].
 Proof. vm_compute. repeat split. Qed.
+
+(* signed typed accessors (review r1, C04-3): the matching signed read returns the written value, for every value of the type;
+   signed stream writes are the positional signed write at the cursor *)
+Theorem C04_signed_read_after_write : forall a address a',
+  (forall z, (-128 <= z < 128)%Z -> write_i8 a address z = Ok a' -> read_i8 a' address = Ok z) /\
+  (forall z, (-32768 <= z < 32768)%Z -> write_i16 a address z = Ok a' -> read_i16 a' address = Ok z) /\
+  (forall z, (-2147483648 <= z < 2147483648)%Z -> write_i32 a address z = Ok a' -> read_i32 a' address = Ok z).
+Proof. exact signed_read_after_write. Qed.
+Theorem C04_stream_write_signed_refines : forall a pos z,
+  w_write_i8 a pos z = (unit_of (write_i8 a pos z), arch_of (write_i8 a pos z) a, if is_ok (write_i8 a pos z) then pos + 1 else pos) /\
+  w_write_i16 a pos z = (unit_of (write_i16 a pos z), arch_of (write_i16 a pos z) a, if is_ok (write_i16 a pos z) then pos + 2 else pos) /\
+  w_write_i32 a pos z = (unit_of (write_i32 a pos z), arch_of (write_i32 a pos z) a, if is_ok (write_i32 a pos z) then pos + 4 else pos).
+Proof. exact w_write_signed_refines. Qed.
